@@ -113,6 +113,30 @@ func cmdCheck(mode string, args []string) int {
 	for _, eng := range extraEngines[*prop] {
 		obls = append(obls, eng(w, r)...)
 	}
+	// An obligation that comes back undecided may simply have lost the race against the clock on
+	// a busy machine. Before it is reported, a small number of undecided obligations get a second,
+	// unhurried attempt (four times the time limit, little parallelism). Many undecided obligations
+	// at once are not a load effect and are reported as they are.
+	if mode == "check" {
+		var again []*Obligation
+		for _, o := range obls {
+			if o.Status == "unknown" && !o.Cover && o.Unit != nil {
+				again = append(again, o)
+			}
+		}
+		if len(again) > 0 && len(again) <= 8 {
+			SolveAll(again, qdir, *timeout*4, false, 2)
+			n := 0
+			for _, o := range again {
+				if o.Status == "proved" {
+					n++
+					o.Note += " [decided at the second attempt with 4x the time limit]"
+				}
+			}
+			r.Extra["undecided_retried"] = len(again)
+			r.Extra["undecided_retried_proved"] = n
+		}
+	}
 	r.Obls = obls
 	r.Errors = w.errors
 	if mode == "verify" {
